@@ -1,7 +1,7 @@
 (** The ledger part of the core invariant at EVERY state of EVERY micro schedule.
 
     [Inv] (Defs.v) ties the ledger to the store and to the expiry index, and those ties are broken transiently inside the
-    windows of the worker (a key admitted and charged but not yet inserted; a key removed but still charged), of
+    windows of the worker (a key let in and charged but not yet inserted; a key removed but still charged), of
     put_or_update and of shutdown().  The part of [Inv] that talks about the ledger alone,
 
         the charged ids are pairwise distinct, the total is the sum of the charges, every charge is positive, the total
